@@ -961,16 +961,25 @@ Lemma complete_history_exists ms :
   no_absorb (seq_sched ms) = true /\ drained (final (init ms) (seq_sched ms)) = true.
 Proof. split. apply seq_sched_no_absorb. apply seq_sched_drained. Qed.
 
+Lemma parse_payload_body p m : bytes p -> parse_payload p = Ok m -> bytes (m_body m).
+Proof.
+  intros Hp. unfold parse_payload.
+  destruct (negb (xor_all p =? 0)); [discriminate|].
+  destruct (len p <? 4); [discriminate|].
+  destruct (len p <? _); [discriminate|].
+  destruct (_ && _); [discriminate|].
+  destruct (negb _); [discriminate|].
+  intros H. apply (f_equal (fun r => match r with Ok x => x | _ => m end)) in H. cbv beta iota in H.
+  rewrite <- H. clear H. cbn [m_body]. apply bytes_sub, Hp.
+Qed.
+
 Lemma decoded_dmsg_wf f m data c : bytes f -> decode f = Ok m ->
   dmsg_wf {| d_m := m; d_complete := c; d_data := data |}.
 Proof.
   intros B D. split; cbn [d_m].
   - now apply (decode_gives_decoded_header f).
   - rewrite decode_unfold in D. destruct (unescape f) as [p| |] eqn:U; try discriminate. cbn [bind] in D.
-    pose proof (unescape_bytes f p B U) as Bp.
-    unfold parse_payload in D.
-    repeat match type of D with (if ?b then _ else _) = _ => destruct b; try discriminate end.
-    inversion D. cbn [m_body]. now apply bytes_sub.
+    apply (parse_payload_body p); auto. now apply (unescape_bytes f).
 Qed.
 
 (* a terminal: phone 013800138000 (2013 header); heartbeat with serial 65535, registration with
